@@ -205,6 +205,78 @@ def r_own_elem(ctx, prog, codecs):
                          '%s frees elements of a symbol table: those buffers belong to the application' % fam['release'])
 
 
+def _norm_phi_null(f, tt, t, depth=0):
+    """replace every phi that merges one value with NULL (cleanup labels) by that value, recursively"""
+    if not isinstance(t, tuple) or depth > 12:
+        return t
+    if t[0] == 'phi' and isinstance(t[1], int):
+        vals = set(tt.term(x) for x in f.insts[t[1]].ops) - set([('const', 0)])
+        if len(vals) == 1:
+            return _norm_phi_null(f, tt, vals.pop(), depth + 1)
+        return t
+    return tuple(_norm_phi_null(f, tt, x, depth + 1) if isinstance(x, tuple) else x for x in t)
+
+
+def _elem_of(f, tt, addr, at, iv):
+    """addr is &A[iv] where A is the allocation `at`, possibly seen through a phi merging it with NULL (cleanup labels)."""
+    if addr[0] != 'elem' or addr[2] != iv:
+        return False
+    b = addr[1]
+    if b == at:
+        return True
+    if b[0] == 'phi':
+        vals = set(tt.term(x) for x in f.insts[b[1]].ops) - set([('const', 0)])
+        return vals == set([at])
+    return False
+
+
+def r_own_elem_local(ctx, prog, scope='api'):
+    """Local pointer arrays whose elements take over owned buffers (e.g. the constant terms moved out of the control block for
+    Gaussian elimination): every loop that frees the elements sweeps the same index range as the loop that filled them."""
+    R = 'R-OWN-ELEM'
+    alloc = allocator_set(prog)
+    n = 0
+    for f in prog.all_functions:
+        if not _in_scope(prog, f, scope):
+            continue
+        tt = Terms(f)
+        arrays = [c for c in f.calls() if c.callee in alloc]
+        for a in arrays:
+            at = ('call', a.callee, a.id)
+            fills = []
+            sweeps = []
+            for lp in f.loops.values():
+                lr = loop_range(f, lp, tt)
+                if lr is None:
+                    continue
+                iv = tt.term(_V(lr.iv))
+                for bid in lp.blocks:
+                    if f.bmap[bid].loop != lp.header.id:
+                        continue        # only instructions of this loop level
+                    for i in f.bmap[bid].insts:
+                        if i.op == 'store' and _elem_of(f, tt, tt.term(i.ops[1]), at, iv) and tt.term(i.ops[0]) != ('const', 0):
+                            fills.append((lr, i))
+                        if i.op == 'call' and i.callee in DEALLOCATORS and i.args:
+                            t = tt.term(i.args[0])
+                            if t[0] in ('load', 'load@') and _elem_of(f, tt, t[1], at, iv):
+                                sweeps.append((lr, i))
+            if not fills or not sweeps:
+                continue
+            def rng(lr):
+                return (_norm_phi_null(f, tt, lr.start), _norm_phi_null(f, tt, lr.bound), lr.pred, lr.step)
+            ranges = set(rng(lr) for lr, _ in fills)
+            if len(ranges) != 1:
+                continue
+            fr = list(ranges)[0]
+            for lr, i in sweeps:
+                n += 1
+                ok = rng(lr) == fr
+                ctx.instance(R, ok, i, '%s:local-array#%d:sweep' % (f.name, _ordinal(f, a)),
+                             '%s fills the local array allocated at %s over "%s" but frees its elements over "%s": the remaining '
+                             'elements leak (or slots never filled are freed)' % (f.name, a.loc(), fills[0][0].describe(), lr.describe()))
+    return n
+
+
 # ------------------------------------------------------------------ R-OWN-LOCAL
 def _aliases(f, tt, call):
     """SSA instructions that carry the allocation's pointer: the call, casts, GEP-free phis containing it."""
@@ -239,33 +311,116 @@ def local_allocs(prog, f):
     return out
 
 
+def capture_sites(prog, g, argidx, depth=0):
+    """Sites in g (and owning callees) where its argidx-th pointer parameter is freed, stored into longer-lived memory or
+    returned: list of atom lists (the guards of each site, in g's own terms).  An empty atom list = unconditional."""
+    key = ('_capsites', argidx)
+    if key in g.__dict__:
+        return g.__dict__[key]
+    g.__dict__[key] = []
+    tt = Terms(g)
+    sites = []
+    P = ('param', argidx)
+
+    def guards(block):
+        # keep only guards that talk about the parameters / the object (anything else is treated as "may hold")
+        return [a for a in atoms_at(g, tt, block) if a[0] == 'cmp']
+    for i in g.all_insts():
+        if i.op == 'call' and i.callee:
+            for j, a in enumerate(i.args):
+                if tt.term(a) == P:
+                    if i.callee in DEALLOCATORS or SELF_FREEING.get(i.callee, False):
+                        sites.append(guards(i.block))
+                    elif depth < 3 and prog.callee_fn(i) is not None and prog.callee_fn(i) is not g:
+                        inner = capture_sites(prog, prog.callee_fn(i), j, depth + 1)
+                        from .rules_decode import subst_params
+                        iargs = [tt.term(x) for x in i.args]
+                        for ig in inner:
+                            # the inner guards, expressed over this function's values, together with the guards of the call
+                            tr = [('cmp', a2[1], subst_params(a2[2], iargs), subst_params(a2[3], iargs)) for a2 in ig]
+                            sites.append(guards(i.block) + tr)
+        if i.op == 'store' and tt.term(i.ops[0]) == P:
+            root = addr_root(tt.term(i.ops[1]))
+            if root[0] not in ('local', 'viaLocal'):
+                sites.append(guards(i.block))
+        if i.op == 'ret' and i.ops and tt.term(i.ops[0]) == P:
+            sites.append(guards(i.block))
+    g.__dict__[key] = sites
+    return sites
+
+
 def takes_ownership(prog, callee, argidx, depth=0):
     """Does the callee free, store (capture) or return its argidx-th pointer parameter on some path?"""
     g = prog.fn(callee) if isinstance(callee, str) else callee
     if g is None:
         return callee in DEALLOCATORS if isinstance(callee, str) else False
-    key = ('_takes', argidx)
-    if key in g.__dict__:
-        return g.__dict__[key]
-    g.__dict__[key] = False
-    tt = Terms(g)
-    res = False
-    for i in g.all_insts():
-        if i.op == 'call' and i.callee:
-            for j, a in enumerate(i.args):
-                if tt.term(a) == ('param', argidx):
-                    if i.callee in DEALLOCATORS or i.callee in SELF_FREEING:
-                        res = True
-                    elif depth < 3 and prog.callee_fn(i) is not None and takes_ownership(prog, prog.callee_fn(i), j, depth + 1):
-                        res = True
-        if i.op == 'store' and tt.term(i.ops[0]) == ('param', argidx):
-            root = addr_root(tt.term(i.ops[1]))
-            if root[0] not in ('local', 'viaLocal'):
-                res = True
-        if i.op == 'ret' and i.ops and tt.term(i.ops[0]) == ('param', argidx):
-            res = True
-    g.__dict__[key] = res
-    return res
+    return bool(capture_sites(prog, g, argidx))
+
+
+# ---- a very small linear reasoner, used to show that a conditional capture cannot happen at a given call site
+def _lin(t):
+    """term -> ({atomic term: coef}, const) for +, -, constants; casts are transparent in terms already"""
+    if t[0] == 'const':
+        return {}, t[1]
+    if t[0] == 'bin' and t[1] in ('add', 'sub'):
+        a, ca = _lin(t[2])
+        b, cb = _lin(t[3])
+        sg = 1 if t[1] == 'add' else -1
+        out = dict(a)
+        for k2, v in b.items():
+            out[k2] = out.get(k2, 0) + sg * v
+        return dict((k2, v) for k2, v in out.items() if v), ca + sg * cb
+    return {t: 1}, 0
+
+
+def _lower_bound(t, K, depth=0):
+    """a lower bound of term t implied by the atoms K (constants and one level of x >= y chains); None if unknown"""
+    lb = 0     # unsigned quantities
+    for a in K:
+        if a[0] != 'cmp':
+            continue
+        for (x, y, p) in ((a[2], a[3], a[1]), (a[3], a[2], _swap_pred(a[1]))):
+            if x != t:
+                continue
+            if p in ('uge', 'sge', 'ugt', 'sgt', 'eq'):
+                add = 1 if p in ('ugt', 'sgt') else 0
+                if y[0] == 'const':
+                    lb = max(lb, y[1] + add)
+                elif depth < 2:
+                    sub = _lower_bound(y, K, depth + 1)
+                    if sub is not None:
+                        lb = max(lb, sub + add)
+    return lb
+
+
+def _swap_pred(p):
+    from .ir import SWAP
+    return SWAP[p]
+
+
+def atom_refuted(atom, K):
+    """Is the comparison `atom` (x < y, x <= y) impossible given K?  (no-wrap arithmetic: the quantities are symbol counts
+    bounded by the validated limits)"""
+    if atom[0] != 'cmp' or atom[1] not in ('ult', 'ule', 'slt', 'sle'):
+        return False
+    a, ca = _lin(atom[2])
+    b, cb = _lin(atom[3])
+    d = dict(a)
+    for k2, v in b.items():
+        d[k2] = d.get(k2, 0) - v
+    d = dict((k2, v) for k2, v in d.items() if v)
+    c = ca - cb
+    # minimum of (x - y)
+    lo = c
+    for k2, v in d.items():
+        if v < 0:
+            return False          # would need an upper bound
+        lbk = _lower_bound(k2, K)
+        if lbk is None:
+            return False
+        lo += v * lbk
+    # x < y refuted if x - y >= 0 always; x <= y refuted if x - y >= 1 always
+    return lo >= (0 if atom[1] in ('ult', 'slt') else 1)
 
 
 def api_reachable(prog):
@@ -294,6 +449,8 @@ def _in_scope(prog, f, scope):
         return True
     if scope == 'api':
         return any(g is f for g in api_reachable(prog))
+    if callable(scope):
+        return scope(f)
     return f.unit.name in scope
 
 
@@ -341,7 +498,8 @@ def _release_event(prog, f, tt, i, al):
                 if i.callee in ('of_realloc', 'realloc'):
                     return True
                 if i.callee and prog.callee_fn(i) is not None and takes_ownership(prog, prog.callee_fn(i), j):
-                    return True
+                    if _capture_possible(prog, f, i, j):
+                        return True
         return False
     if i.op == 'store' and _is_alias(i.ops[0], al):
         root = addr_root(tt.term(i.ops[1]))
@@ -351,6 +509,52 @@ def _release_event(prog, f, tt, i, al):
     if i.op == 'ret' and i.ops and _is_alias(i.ops[0], al):
         return True
     return False
+
+
+def _capture_possible(prog, f, call, j):
+    """The callee captures its j-th argument only under guards; can those guards hold at this call site?"""
+    from .rules_param import _callee_nonnull_atoms, _atomset
+    from .rules_decode import subst_params
+    g = prog.callee_fn(call)
+    sites = capture_sites(prog, g, j)
+    if any(not s2 for s2 in sites):
+        return True
+    tf = Terms(f, forward=True)
+    K = set(_atomset(atoms_at(f, tf, call.block)))
+    for a in list(K):
+        if a[1] == 'ne' and a[3] == ('const', 0) and a[2][0] == 'call':
+            h = prog.fn(a[2][1], f.unit)
+            ci = f.insts.get(a[2][2])
+            if h is not None and ci is not None and h.ret.endswith('*'):
+                K |= _callee_nonnull_atoms(prog, h, [tf.term(x) for x in ci.args])
+    args = [tf.term(x) for x in call.args]
+    for guards in sites:
+        refuted = False
+        for a in guards:
+            ta = ('cmp', a[1], _forward_loads(f, tf, subst_params(a[2], args), call), _forward_loads(f, tf, subst_params(a[3], args), call))
+            if atom_refuted(ta, K):
+                refuted = True
+                break
+        if not refuted:
+            return True
+    return False
+
+
+def _forward_loads(f, tf, t, at, depth=0):
+    """replace loads of members by the value the caller stored there before `at` (all stores to it dominate `at`)"""
+    if not isinstance(t, tuple) or depth > 8:
+        return t
+    if t[0] in ('load', 'load@') and t[1][0] in ('field', 'elem'):
+        sts = tf.stores_by_addr().get(t[1], [])
+        doms = [s2 for s2 in sts if f.dominates(s2, at)]
+        if sts and len(doms) == len(sts):
+            last = doms[0]
+            for s2 in doms[1:]:
+                if f.dominates(last, s2):
+                    last = s2
+            return tf.term(last.ops[0])
+        return t
+    return tuple(_forward_loads(f, tf, x, at, depth + 1) if isinstance(x, tuple) else x for x in t)
 
 
 def _leak_path(prog, f, tt, call, al, reach_ok, rem):
@@ -473,35 +677,102 @@ def _ids_in(t, acc):
     return acc
 
 
+def _elem_parts(tt, ptr_v):
+    """For a pointer operand that is &base[idx] (GEP with one trailing index): (base term, index SSA inst or None, index term)."""
+    v = strip_casts(ptr_v)
+    if v.k != 'i' or v.inst.op != 'getelementptr' or not v.inst.path:
+        return None
+    g = v.inst
+    last = g.path[-1]
+    if 'idxv' not in last:
+        return None
+    a = tt.term(ptr_v)
+    if a[0] != 'elem':
+        return None
+    iv = strip_casts(last['idxv'])
+    return a[1], (iv.inst if iv.k == 'i' else None), a[2]
+
+
 def _reload_use_after(prog, f, tt, freecall, addr):
     """The freed pointer was loaded from `addr` (member or table element).  If that location still holds it (no store to it
     between the load and the free), a later reload that is used before the location is reassigned is a use after free.
-    Paths that re-execute an instruction the address depends on (loop counter phi) reach a different location."""
+    For table elements the index is followed along each path through phis and casts (value equality of SSA values), so that
+    "next iteration, next element" is told apart from "next iteration, same element"."""
     v = strip_casts(freecall.args[0])
     if v.k != 'i' or v.inst.op != 'load' or v.inst.block is not freecall.block:
         return None
     for i in freecall.block.insts[v.inst.pos:freecall.pos]:
         if i.op == 'store' and tt.term(i.ops[1]) == addr:
             return None            # the location was reassigned before the free: it no longer holds the freed pointer
-    dep = _ids_in(addr, set())
+    parts = _elem_parts(tt, v.inst.ops[0]) if addr[0] == 'elem' else None
+    if parts is None or parts[1] is None:
+        dep = _ids_in(addr, set())
 
-    def stop(i):
-        if i.op == 'store' and tt.term(i.ops[1]) == addr:
-            return True
-        if i.id in dep:
-            return True            # address expression re-evaluated: another element
-        return False
+        def stop(i):
+            return (i.op == 'store' and tt.term(i.ops[1]) == addr) or i.id in dep
 
-    def visit(i):
-        if i.id in dep:
+        def visit(i):
+            if i.op == 'load' and tt.term(i.ops[0]) == addr:
+                for u in i.users:
+                    if u.op not in ('icmp', 'phi'):
+                        return u
             return None
-        if i.op == 'load' and tt.term(i.ops[0]) == addr:
-            for u in i.users:
-                if u.op in ('icmp', 'phi'):
-                    continue
-                return u
-        return None
-    return _walk_from(f, freecall, stop, visit)
+        return _walk_from(f, freecall, stop, visit)
+    base, idx_inst, _ = parts
+    dep_base = _ids_in(base, set())
+
+    def same_slot(ptr_v, eq):
+        p2 = _elem_parts(tt, ptr_v)
+        return p2 is not None and p2[0] == base and p2[1] is not None and p2[1].id in eq
+
+    start_eq = frozenset([idx_inst.id])
+    work = [(freecall.block, freecall.pos + 1, start_eq)]
+    seen = set()
+    while work:
+        b, pos, eq = work.pop()
+        eqs = set(eq)
+        stopped = False
+        for i in b.insts[pos:]:
+            if i.op == 'phi':
+                continue
+            if i.id in dep_base:
+                stopped = True       # the table pointer itself is re-evaluated
+                break
+            if i.id in eqs:
+                eqs.discard(i.id)    # re-executed definition: a new value
+            if i.op in ('zext', 'sext', 'trunc', 'bitcast'):
+                o = strip_casts(i.ops[0])
+                if o.k == 'i' and o.inst.id in eqs:
+                    eqs.add(i.id)
+            if i.op == 'store' and same_slot(i.ops[1], eqs):
+                stopped = True
+                break
+            if i.op == 'load' and same_slot(i.ops[0], eqs):
+                for u in i.users:
+                    if u.op not in ('icmp', 'phi'):
+                        return u
+        if stopped or not eqs:
+            continue
+        for s2 in b.succs:
+            e2 = set(eqs)
+            for ph in s2.insts:
+                if ph.op != 'phi':
+                    break
+                inc = [x for (bid, x) in ph.incoming if bid == b.id]
+                took = False
+                for x in inc:
+                    sx = strip_casts(x)
+                    if sx.k == 'i' and sx.inst.id in eqs:
+                        took = True
+                if took:
+                    e2.add(ph.id)
+                else:
+                    e2.discard(ph.id)
+            key = (s2.id, frozenset(e2))
+            if key not in seen and e2:
+                seen.add(key)
+                work.append((s2, 0, frozenset(e2)))
+    return None
 
 
 def r_dangling(ctx, prog, scope_units=None):
